@@ -258,7 +258,7 @@ def run(facts, res):
                                 if not ok:
                                     res.violation("W4", "%s|threshold:%s%d" % (b.path, op, k),
                                                   "%s compares leafs.len() with `%s %d`; an object is in conflict iff it has more than 1 live leaf" % (b.path, op, k), b.loc(st.line))
-    res.floor("W4", "leaf-count comparisons", n4, 4)
+    res.floor("W4", "leaf-count comparisons", n4, 1)
     gc = facts.body("melda::Melda::get_conflicting")
     if gc is not None:
         ok = False
